@@ -1,17 +1,20 @@
-use std::io::{self, BufRead};
+use std::io::{self, BufRead, Write};
 
 #[cfg(not(tarpaulin_include))]
 pub fn parse_ansi() -> std::io::Result<()> {
     use crate::ansi;
 
+    let mut stdout = io::stdout().lock();
     for line in io::stdin().lock().lines() {
-        println!(
+        // (not println!, which panics when the reader has gone away)
+        writeln!(
+            stdout,
             "{}",
             ansi::explain_ansi(
                 &line.unwrap_or_else(|line| panic!("Invalid utf-8: {:?}", line)),
                 true
             )
-        );
+        )?;
     }
     Ok(())
 }
